@@ -32,7 +32,7 @@ FLOATS = [0.5, -0.0, 1e15, 2.0 ** 53, -2.5, 3.0, 0.0]
 D0 = datetime.datetime(2024, 1, 2, 3, 4, 5, 123000)
 DTS = [D0, datetime.date(2024, 1, 2), datetime.datetime(2023, 12, 31, 23, 59, 59, 999000)] + \
     [D0 + datetime.timedelta(milliseconds=ms) for ms in (1001, 2030, -1003)]
-OTHERS = [[], [1, 'a'], {{}}, {{'a': 1}}, len, re.compile('a'), [None], ['id', 7], ['id', 'n/a'], {{'a': 'x'}}]
+OTHERS = [[], [1, 'a'], {{}}, {{'a': 1}}, len, re.compile('a'), [None], ['id', 7], ['id', 'n/a'], {{'a': 'x'}}, [3], [1, 2], [1, 2, 3], {{'a': 1, 'b': 0}}]
 
 
 def _pick(pool, i):
@@ -86,6 +86,7 @@ def core_ops(a, b):
 CORE_ORD = '''
 import datetime, re
 from bare_script import parse_expression, evaluate_expression
+from bare_script.runtime import BareScriptRuntimeError
 from vf.hlib import c03spec
 
 TREE = {tree!r}
@@ -118,11 +119,17 @@ def core_order(vals):
     def hh(args, options):
         log_real.append(('hh', len(args)))
         return args[0] if args else None
-    got = evaluate_expression(EXPR, {{'globals': {{'ee': ee, 'hh': hh}}}})
-    want = c03spec.evaluate(TREE, lambda k: _leafval(vals, k), log_ref)
+    try:
+        got = evaluate_expression(EXPR, {{'globals': {{'ee': ee, 'hh': hh}}}})
+    except BareScriptRuntimeError as exc:
+        got = ('undefined',) if str(exc).startswith('Undefined function') else ('error', str(exc))
+    try:
+        want = c03spec.evaluate(TREE, lambda k: _leafval(vals, k), log_ref)
+    except c03spec.UndefinedFunction:
+        want = ('undefined',)
     if log_real != log_ref:
         return False, {{'clause': 'operands are not evaluated left to right, once, lazily', 'expr': TEXT, 'log': repr(log_real), 'expected_log': repr(log_ref)}}
-    ok = (got is want) if isinstance(want, (list, dict)) else c03spec.same(got, want)
+    ok = (got is want) if isinstance(want, (list, dict)) else (got == want if isinstance(want, tuple) or isinstance(got, tuple) else c03spec.same(got, want))
     if not ok:
         return False, {{'clause': 'expression value differs from the reference evaluation', 'expr': TEXT, 'result': repr(got)[:80], 'expected': repr(want)[:80]}}
     return True, {{}}
@@ -186,7 +193,7 @@ def core_alias(i, i2, s, b):
 
 def _pre(kind, name):
     return {'str': [f'len({name}) <= 2'], 'null': [f'{name} == 0'], 'float': [f'0 <= {name} < 7'], 'dt': [f'0 <= {name} < 6'],
-            'other': [f'0 <= {name} < 10']}.get(kind, [])
+            'other': [f'0 <= {name} < 14']}.get(kind, [])
 
 
 def plan(tier, seed, workdir):
@@ -206,7 +213,7 @@ def plan(tier, seed, workdir):
             pre = _pre(ka, 'a') + _pre(kb, 'b')
             body += hgen.harness('ops', f'a: {PT[ka]}, b: {PT[kb]}', pre, core_call='core_ops(a, b)')
             path = hgen.write_module(workdir, f'c03_op_{ka}_{kb}', body)
-            sizes = {'float': 7, 'dt': 6, 'other': 10, 'null': 1}
+            sizes = {'float': 7, 'dt': 6, 'other': 14, 'null': 1}
             dom = {'a': list(range(sizes[ka])), 'b': list(range(sizes[kb]))} if ka in sizes and kb in sizes else None
             hgen.ch_tasks(p, path, 'ops', timeout, family='operator matrix', kinds=[ka, kb], enum=dom)
     arith = c03spec.shapes(['+', '*', '<', '==', '-'], 2)
